@@ -150,6 +150,37 @@ pub fn c13(log: &mut Log, seed: u64, tier: &str) {
                 log.ev(json!({"ev": "Mem", "what": "build", "scenario": format!("build-prefixkeys-{}-{}", if set { "set" } else { "map" }, gname),
                               "n": n, "k": 1, "cells": cells, "maxFan": 4, "maxKeyLen": KEYLEN + 1, "live": jn(live), "peak": jn(peak), "allocs": jn(allocs)}));
             }
+            // a seventh family: n short keys, one key of 100 bytes, a thousand short keys more
+            for &n in &ns {
+                if n > 1_000_000 {
+                    continue;
+                }
+                fst::raw::verif::set_geometry(geo);
+                let snap = alloc::begin();
+                let mut b = Builder::new(io::sink()).unwrap();
+                let cells = { let (r, c) = fst::raw::verif::last_geometry(); let _ = cells; r * c };
+                let mut key = *b"s000000000";
+                let put = |b: &mut Builder<io::Sink>, k: &[u8], v: u64| if set { b.add(k).unwrap() } else { b.insert(k, v).unwrap() };
+                for i in 0..n {
+                    let mut x = i;
+                    for d in (1..10).rev() {
+                        key[d] = b'0' + (x % 10) as u8;
+                        x /= 10;
+                    }
+                    put(&mut b, &key, i as u64);
+                }
+                let long = [b't'; 100];
+                put(&mut b, &long, 5);
+                for i in 0..1000usize {
+                    let k = format!("u{:05}", i);
+                    put(&mut b, k.as_bytes(), i as u64);
+                }
+                let (live, peak, allocs) = alloc::read(&snap);
+                b.finish().unwrap();
+                fst::raw::verif::set_geometry(None);
+                log.ev(json!({"ev": "Mem", "what": "build", "scenario": format!("build-longkey-late-{}-{}", if set { "set" } else { "map" }, gname),
+                              "n": n, "k": 1, "cells": cells, "maxFan": 10, "maxKeyLen": 100, "live": jn(live), "peak": jn(peak), "allocs": jn(allocs)}));
+            }
             // a sixth family (sets): sorted but not de-duplicated input - long runs of the same key
             if set {
                 for &n in &ns {
@@ -315,16 +346,28 @@ fn c14_lookup_shapes(log: &mut Log) {
         v.sort();
         v
     }));
-    let shapes: Vec<(String, Vec<Vec<u8>>, bool)> = shapes.into_iter().flat_map(|(n, k)| vec![(n.clone(), k.clone(), false), (format!("{}-decreasing", n), k, true)]).collect();
-    for (name, keys, decreasing) in shapes {
+    // value scales: outputs packed in 1-2, 5, 6, 7 and 8 bytes
+    let shapes: Vec<(String, Vec<Vec<u8>>, bool, u32)> = shapes
+        .into_iter()
+        .flat_map(|(n, k)| {
+            let mut v = vec![(n.clone(), k.clone(), false, 0u32), (format!("{}-decreasing", n), k.clone(), true, 0)];
+            if k.len() <= 600 && (n.ends_with('7') || n.ends_with('3') || !n.starts_with("fanout")) {
+                for &sh in &[33u32, 41, 49, 57] {
+                    v.push((format!("{}-shl{}", n, sh), k.clone(), sh == 41, sh));
+                }
+            }
+            v
+        })
+        .collect();
+    for (name, keys, decreasing, shl) in shapes {
         if decreasing && keys.len() > 2000 && name.starts_with("wiki") {
             continue;
         }
         let mut b = Builder::memory();
         for (i, k) in keys.iter().enumerate() {
             // (decreasing values leave non-zero final outputs on keys that are prefixes of later keys)
-            let v = if decreasing { ((keys.len() - i) as u64) * 7 + 1 } else { (i as u64) * 3 };
-            b.insert(k, v).unwrap();
+            let v = if decreasing { ((keys.len() - i) as u64) * 7 + 1 } else { (i as u64) * 3 + (shl > 0) as u64 };
+            b.insert(k, v << (shl % 64)).unwrap();
         }
         let bytes = b.into_inner().unwrap();
         let maxlen = keys.iter().map(|k| k.len()).max().unwrap_or(0);
